@@ -7,20 +7,20 @@ Section S.
 Variable oracle : nat -> bool.
 
 (* the tail of Database._exec_sql: connection.cursor(); provider.execute(...); if cache.immediate: cache.in_transaction = True *)
-Definition exec_tail (q : stmt) : M :=
-  (fun s => (try_except (dbcall oracle KCursor (k_id s)) (fun _ => raise EDrv) ;; dbcall oracle (KExecute q) (k_id s)) s) ;;
+Definition exec_tail (many : bool) (q : stmt) : M :=
+  (fun s => (try_except (dbcall oracle KCursor (k_id s)) (fun _ => raise EDrv) ;; dbcall oracle (stmt_call many q) (k_id s)) s) ;;
   (fun s => when (k_imm s) (upd (set_k_intxn true)) s).
 
-Lemma exec_tail_spec : forall q s, WF s -> (q = SSelect \/ (q = SWrite /\ k_imm s = true)) ->
+Lemma exec_tail_spec : forall many q s, WF s -> (q = SSelect \/ (q = SWrite /\ k_imm s = true)) ->
   k_has s = true -> k_reg s = true -> (k_imm s = true -> k_intxn s = true) ->
-  match exec_tail q s with
+  match exec_tail many q s with
   | (Blocked, _) => other s = true
   | (r, s') => WF s' /\ Ext s s' /\ KF s s' /\ k_has s' = true /\ k_intxn s' = k_intxn s
   end.
 Proof.
-  intros q. destruct_st. intros [[? ? ? ? ? ? ? ? ? ? ? ?] ? ?] Hq ? ? ?.
+  intros many q. destruct_st. intros [[? ? ? ? ? ? ? ? ? ? ? ? ?] ? ?] Hq ? ? ?.
   unfold KF, exec_tail. unfold_all.
-  destruct Hq as [-> | [-> ?]]; run.
+  destruct many; destruct Hq as [-> | [-> ?]]; run.
   all: try reflexivity.
   all: split; [wf_tac | split; [ext_tac | norm; auto]].
   all: finish.
@@ -35,7 +35,7 @@ Lemma cache_close_spec : forall rb s, WFw s -> k_reg s = true -> (rb = true \/ k
   | (r, s') => WF s' /\ Ext s s' /\ k_reg s' = false /\ k_has s' = false /\ k_intxn s' = false
   end.
 Proof.
-  intros rb. destruct_st. intros [? ? ? ? ? ? ? ? ? ? ? ?] ? Hrb ?.
+  intros rb. destruct_st. intros [? ? ? ? ? ? ? ? ? ? ? ? ?] ? Hrb ?.
   unfold_all.
   destruct Hrb as [-> | ?]; run.
   all: try reflexivity.
